@@ -156,6 +156,7 @@ class _ChildStream:
 
     def __init__(self, proc, which):
         self._proc, self._which, self._pos, self.closed = proc, which, 0, False
+        self._fd = None  # descriptor number, allocated on the first fileno() (sim/childfd.py)
 
     def _wait(self, want):
         """block until want(available bytes from pos, eof?) is true"""
@@ -229,10 +230,15 @@ class _ChildStream:
 
     def close(self):
         self.closed = True
+        if self._fd is not None:
+            fd, self._fd = self._fd, None
+            self._proc.world.childfds.close(fd)
         self._proc.world.sched.notify(self._proc)
 
     def fileno(self):
-        raise Unmodelled("fileno() of a simulated child pipe")
+        if self.closed:
+            raise ValueError("I/O operation on closed file")
+        return self._proc.world.childfds.fd_for(self)
 
     def __enter__(self):
         return self
@@ -804,7 +810,7 @@ def install(world, step_monitoring):
         return real_getpgid(pid)
 
     os.killpg, os.getpgid = sim_killpg, sim_getpgid
-    for name in ("system", "fork", "forkpty", "posix_spawn", "posix_spawnp", "popen",
+    for name in ("system", "fork", "forkpty", "popen",
                  "execv", "execve", "execvp", "execl", "execlp", "spawnv", "spawnl"):
         if hasattr(os, name):
             setattr(os, name, _unmodelled("os." + name))
@@ -813,6 +819,8 @@ def install(world, step_monitoring):
         _posixsubprocess.fork_exec = _unmodelled("_posixsubprocess.fork_exec")
     except ImportError:
         pass
+    from . import childfd
+    childfd.install(world)  # descriptor numbers for the helper's pipes, select/poll/selectors, os.posix_spawn
     # SIGALRM in virtual time: alarm()/setitimer(ITIMER_REAL) arm a timer the scheduler owns; the handler runs in the
     # main thread at the next scheduling point at or after the expiry (between two bytecodes, as a real handler would)
     sch = world.sched
